@@ -271,7 +271,7 @@ type ClientConn struct {
 	// wmu is held while writing.
 	// Acquire BEFORE mu when holding both, to avoid blocking mu on network writes.
 	// Only acquire both at the same time when changing peer settings.
-	wmu  sync.Mutex
+	wmu  wmuMutex
 	bw   *bufio.Writer
 	fr   *Framer
 	werr error        // first write error that has occurred
